@@ -106,6 +106,9 @@ class Engine:
         self.obligations = []
         self._obl_ids = set()
         self._obl_keep = []
+        self._inc = None
+        self.nfeas = 0
+        self.yield_hooks = {}    # qualname of a generator function -> hook(engine, st, value)
         from . import builtins as B
         self.B = B
         B.install(self)
@@ -144,17 +147,38 @@ class Engine:
 
     # ===================================================================== feasibility
     def feasible(self, st, extra=None):
-        s = z3.Solver()
-        s.set("timeout", self.feas_timeout)
-        for c in st.pc:
-            s.add(c)
-        if extra is not None:
-            s.add(extra)
-        for a in self.axioms:
-            s.add(a)
-        for a in str_axioms():
-            s.add(a)
-        return s.check() != z3.unsat
+        """incremental feasibility check: one solver whose assertion stack mirrors the current
+        path condition (depth-first exploration mostly extends / backtracks a prefix)"""
+        inc = self._inc
+        nax = len(self.axioms) + len(str_axioms())
+        if inc is None or inc["nax"] != nax:
+            sol = z3.Solver()
+            sol.set("timeout", self.feas_timeout)
+            for a in self.axioms:
+                sol.add(a)
+            for a in str_axioms():
+                sol.add(a)
+            inc = self._inc = {"solver": sol, "stack": [], "nax": nax}
+        sol, stack = inc["solver"], inc["stack"]
+        ids = [c.get_id() for c in st.pc]
+        k = 0
+        while k < len(stack) and k < len(ids) and stack[k] == ids[k]:
+            k += 1
+        while len(stack) > k:
+            sol.pop()
+            stack.pop()
+        for j in range(k, len(ids)):
+            sol.push()
+            sol.add(st.pc[j])
+            stack.append(ids[j])
+        if extra is None:
+            return sol.check() != z3.unsat
+        sol.push()
+        sol.add(extra)
+        r = sol.check()
+        sol.pop()
+        self.nfeas += 1
+        return r != z3.unsat
 
     def branch(self, st, cond, note=""):
         """fork on a z3 Bool; yields (state, python bool) for each feasible side"""
@@ -167,7 +191,7 @@ class Engine:
             return
         ncond = z3.Not(cond)
         ft = self.feasible(st, cond)
-        ff = self.feasible(st, ncond)
+        ff = self.feasible(st, ncond) if ft else True   # pc is feasible, so one side is
         if ft and ff:
             self.npaths += 1
             if self.npaths > self.MAX_PATHS:
@@ -245,6 +269,15 @@ class Engine:
             v = c
         if isinstance(v, SSeq):
             yield from self.branch(st, v.n > 0, note)
+            return
+        if isinstance(v, self.B.FSet):
+            yield from self.branch(st, z3.Or(list(v.mem.values())), note)
+            return
+        if isinstance(v, (self.B.CSet,)):
+            yield st, len(v.items) > 0
+            return
+        if isinstance(v, self.B.PendingEmpty):
+            yield st, False
             return
         if isinstance(v, (SMap, SSet)):
             if v.keys is not None:
@@ -416,13 +449,142 @@ class Engine:
             else:
                 raise Unsupported(f"raise of {v!r}")
 
+    merge_ifs = True
+
     def st_If(self, node, st):
         for s, v in self.ev(node.test, st):
             if isinstance(v, ExcVal):
                 yield s, ("raise", v)
                 continue
+            bv = self.as_bool_value(s, v)
+            if self.merge_ifs and isinstance(bv, SBool) and _mergeable_body(node.body) and _mergeable_body(node.orelse):
+                g = z3.simplify(bv.z)
+                if not z3.is_true(g) and not z3.is_false(g) and self.feasible(s, g) and self.feasible(s, z3.Not(g)):
+                    base_pc = len(s.pc)
+                    sa = s.fork().assume(g)
+                    sb = s.fork().assume(z3.Not(g))
+                    ra = list(self.exec_block(node.body, sa))
+                    rb = list(self.exec_block(node.orelse, sb))
+                    m = None
+                    if len(ra) == 1 and len(rb) == 1 and ra[0][1] is NORMAL and rb[0][1] is NORMAL:
+                        m = self.merge_states(ra[0][0], rb[0][0], g, base_pc)
+                    if m is not None:
+                        yield m, NORMAL
+                    else:
+                        for x in ra:
+                            x[0].note(f"L{self.line(s, node)}:T")
+                            yield x
+                        for x in rb:
+                            x[0].note(f"L{self.line(s, node)}:F")
+                            yield x
+                    continue
             for s2, b in self.truth(s, v, f"L{self.line(s, node)}"):
                 yield from self.exec_block(node.body if b else node.orelse, s2)
+
+    def merge_value(self, g, a, b, sa=None, sb=None):
+        if a is b:
+            return a
+        if a is POISON or b is POISON:
+            return None
+        num = (int, Fraction, SInt, SReal)
+        if isinstance(a, bool) and isinstance(b, bool) and a == b:
+            return a
+        if isinstance(a, (bool, SBool)) and isinstance(b, (bool, SBool)):
+            return SBool(z3.If(g, zbool(a), zbool(b)))
+        if isinstance(a, num) and isinstance(b, num) and not isinstance(a, bool) and not isinstance(b, bool):
+            if not isinstance(a, SV) and not isinstance(b, SV) and a == b and type(a) is type(b):
+                return a
+            x, y, real = num_pair(a, b)
+            if real != (is_real_like(a) and is_real_like(b)) and real:
+                return None   # int on one side, Fraction on the other: python types differ
+            return (SReal if real else SInt)(z3.If(g, x, y))
+        if isinstance(a, SRef) and isinstance(b, SRef) and a.t.z3sort() == b.t.z3sort():
+            return SRef(a.t, z3.If(g, a.z, b.z))
+        if isinstance(a, (SEnum, enum.Enum)) and isinstance(b, (SEnum, enum.Enum)):
+            t = a.t if isinstance(a, SEnum) else (b.t if isinstance(b, SEnum) else Enum(type(a)))
+            try:
+                return SEnum(t, z3.If(g, to_z3(a, t), to_z3(b, t)))
+            except Unsupported:
+                return None
+        if isinstance(a, self.B.FSet) and isinstance(b, self.B.FSet) and a.universe == b.universe:
+            return self.B.FSet(a.universe, {k: z3.simplify(z3.If(g, a.mem[k], b.mem[k])) if not z3.eq(a.mem[k], b.mem[k]) else a.mem[k]
+                                            for k in a.universe})
+        if isinstance(a, SSeq) and isinstance(b, SSeq) and a.te.z3sort() == b.te.z3sort():
+            return SSeq(a.te, z3.If(g, a.arr, b.arr), z3.If(g, a.n, b.n))
+        if isinstance(a, SSet) and isinstance(b, SSet) and a.keys is None and b.keys is None and a.tk.z3sort() == b.tk.z3sort():
+            return SSet(a.tk, z3.If(g, a.has, b.has))
+        if isinstance(a, SMap) and isinstance(b, SMap) and a.keys is None and b.keys is None and a.tk.z3sort() == b.tk.z3sort():
+            return SMap(a.tk, a.tv, z3.If(g, a.has, b.has), z3.If(g, a.val, b.val))
+        if isinstance(a, tuple) and isinstance(b, tuple) and len(a) == len(b):
+            r = [self.merge_value(g, x, y) for x, y in zip(a, b)]
+            return None if any(x is None for x in r) else tuple(r)
+        if isinstance(a, Rec) and isinstance(b, Rec) and a.cls is b.cls and a.fields.keys() == b.fields.keys():
+            f = {}
+            for k in a.fields:
+                m = self.merge_value(g, a.fields[k], b.fields[k])
+                if m is None:
+                    return None
+                f[k] = m
+            return Rec(a.cls, f)
+        if isinstance(a, CList) and isinstance(b, CList) and len(a.items) == len(b.items):
+            r = [self.merge_value(g, x, y) for x, y in zip(a.items, b.items)]
+            return None if any(x is None for x in r) else CList(r)
+        if isinstance(a, Loc) and isinstance(b, Loc) and a.id == b.id:
+            return a
+        if not isinstance(a, SV) and not isinstance(b, SV):
+            try:
+                if type(a) is type(b) and a == b:
+                    return a
+            except Exception:  # noqa
+                pass
+        return None
+
+    def merge_states(self, sa, sb, g, base_pc, one_sided_ok=False):
+        """join of two states that forked on g at pc length base_pc; None if not mergeable"""
+        if len(sa.frames) != len(sb.frames):
+            return None
+        m = sa.fork()
+        for fa, fb, fm in zip(sa.frames, sb.frames, m.frames):
+            keys = set(fa.vars) | set(fb.vars)
+            for k in keys:
+                if k not in fa.vars or k not in fb.vars:
+                    # defined on one side only: keep undefined (reading it later is an error anyway)
+                    if k.startswith("__"):
+                        continue
+                    if one_sided_ok:
+                        # loop-body temporaries of a guarded iteration: keep the defined value
+                        fm.vars[k] = fa.vars.get(k, fb.vars.get(k))
+                        continue
+                    return None
+                v = self.merge_value(g, fa.vars[k], fb.vars[k])
+                if v is None:
+                    if fa.vars[k] is None or fb.vars[k] is None or isinstance(fa.vars[k], Poison) or isinstance(fb.vars[k], Poison):
+                        v = POISON     # dead temporaries of different shapes: poisoned, not merged
+                    else:
+                        return None
+                fm.vars[k] = v
+        for lid in set(sa.heap) | set(sb.heap):
+            if lid not in sa.heap:
+                m.heap[lid] = sb.heap[lid]
+                continue
+            if lid not in sb.heap:
+                continue
+            v = self.merge_value(g, sa.heap[lid], sb.heap[lid])
+            if v is None:
+                return None
+            m.heap[lid] = v
+        ng = z3.Not(g)
+        pc = list(sa.pc[:base_pc])
+        for c in sa.pc[base_pc + 1:]:
+            pc.append(z3.Implies(g, c))
+        for c in sb.pc[base_pc + 1:]:
+            pc.append(z3.Implies(ng, c))
+        m.pc = tuple(pc)
+        seen = set(map(id, sa.obls))
+        m.obls = sa.obls + tuple(o for o in sb.obls if id(o) not in seen)
+        m.tags = tuple(dict.fromkeys(sa.tags + sb.tags))
+        m.ghost = dict(sa.ghost)
+        return m
 
     def st_Assign(self, node, st):
         for s, v in self.ev(node.value, st):
@@ -659,12 +821,13 @@ class Engine:
             yield from self._while_unroll(node, st, k)
             return
         label = f"loop{node._loop_ordinal}@{self.where(st, node)}"
+        pre = L(self, st.fork(), {})
         # init
-        self._oblige_inv(spec, st, {}, label + ":init")
+        self._oblige_inv(spec, st, {"_pre": pre}, label + ":init")
         # havoc
         s = st
         self._havoc(node, spec, s)
-        self._assume_inv(spec, s, {})
+        self._assume_inv(spec, s, {"_pre": pre})
         for s1, c in self.ev(node.test, s):
             if isinstance(c, ExcVal):
                 yield s1, ("raise", c)
@@ -673,7 +836,7 @@ class Engine:
                 if b:
                     for s3, out in self.exec_block(node.body, s2):
                         if out is NORMAL or out[0] == "continue":
-                            self._oblige_inv(spec, s3, {}, label + ":preserve")
+                            self._oblige_inv(spec, s3, {"_pre": pre}, label + ":preserve")
                             self.sink(s3)
                         elif out[0] == "break":
                             yield s3, NORMAL
@@ -683,21 +846,23 @@ class Engine:
                     yield from self.exec_block(node.orelse, s2)
 
     def _while_unroll(self, node, st, k):
-        if k < 0:
-            st.tags = st.tags + (f"bounded(while<={self.UNROLL})",)
-            return  # path dropped: bounded
         for s1, c in self.ev(node.test, st):
             if isinstance(c, ExcVal):
                 yield s1, ("raise", c)
                 continue
+            concrete = isinstance(c, bool)
             for s2, b in self.truth(s1, c, f"while{self.line(s1, node)}"):
                 if not b:
                     yield from self.exec_block(node.orelse, s2)
                     continue
-                self.bounded_used = True
+                if not concrete and k <= 0:
+                    # unrolling bound reached on a feasible path: dropped, result is *bounded*
+                    self.bounded_used = True
+                    self.sink(s2)
+                    continue
                 for s3, out in self.exec_block(node.body, s2):
                     if out is NORMAL or out[0] == "continue":
-                        yield from self._while_unroll(node, s3, k - 1)
+                        yield from self._while_unroll(node, s3, k if concrete else k - 1)
                     elif out[0] == "break":
                         yield s3, NORMAL
                     else:
@@ -763,6 +928,36 @@ class Engine:
         if i >= len(items):
             yield from self.exec_block(node.orelse, st)
             return
+        if isinstance(items[i], self.B.Guarded):
+            g, val = items[i].guard, items[i].value
+            base_pc = len(st.pc)
+            sa = st.fork().assume(g)
+            sb = st.fork().assume(z3.Not(g))
+            ra = []
+            for s1, out in self.assign(node.target, val, sa):
+                if out is not NORMAL:
+                    ra.append((s1, out))
+                else:
+                    ra.extend(self.exec_block(node.body, s1))
+            m = None
+            if len(ra) == 1 and (ra[0][1] is NORMAL or ra[0][1][0] == "continue"):
+                # the skipped side must see the loop variable unchanged: bind it there too
+                if isinstance(node.target, ast.Name):
+                    sb.frame.vars[node.target.id] = ra[0][0].frame.vars.get(node.target.id)
+                m = self.merge_states(ra[0][0], sb, g, base_pc, one_sided_ok=True)
+            if m is not None:
+                yield from self._for_unrolled(node, m, items, i + 1)
+                return
+            for s2, out2 in ra:
+                if out2 is NORMAL or out2[0] == "continue":
+                    yield from self._for_unrolled(node, s2, items, i + 1)
+                elif out2[0] == "break":
+                    yield s2, NORMAL
+                else:
+                    yield s2, out2
+            if self.feasible(sb):
+                yield from self._for_unrolled(node, sb, items, i + 1)
+            return
         for s1, out in self.assign(node.target, items[i], st):
             if out is not NORMAL:
                 yield s1, out
@@ -780,7 +975,8 @@ class Engine:
         if spec is None or spec.inv is None:
             k = spec.unroll if spec is not None and spec.unroll else self.UNROLL
             # bounded: lengths 0..k with symbolic elements
-            self.bounded_used = True
+            if self.feasible(st, seq.n > k):
+                self.bounded_used = True
             for n in range(k + 1):
                 if not self.feasible(st, seq.n == n):
                     continue
@@ -791,12 +987,13 @@ class Engine:
                 yield from self._for_unrolled(node, s, [seq.at(j) for j in range(n)], 0)
             return
         label = f"loop{node._loop_ordinal}@{self.where(st, node)}"
-        self._oblige_inv(spec, st, {"_i": 0, "_seq": seq}, label + ":init")
+        pre = L(self, st.fork(), {})
+        self._oblige_inv(spec, st, {"_i": 0, "_seq": seq, "_pre": pre}, label + ":init")
         s = st
         self._havoc(node, spec, s)
         i = Int.fresh("_i")
         s.assume(i.z >= 0, i.z <= seq.n)
-        self._assume_inv(spec, s, {"_i": i, "_seq": seq})
+        self._assume_inv(spec, s, {"_i": i, "_seq": seq, "_pre": pre})
         for s1, more in self.branch(s, i.z < seq.n, f"for{self.line(s, node)}"):
             if more:
                 for s2, out in self.assign(node.target, seq.at(i), s1):
@@ -805,7 +1002,7 @@ class Engine:
                         continue
                     for s3, out2 in self.exec_block(node.body, s2):
                         if out2 is NORMAL or out2[0] == "continue":
-                            self._oblige_inv(spec, s3, {"_i": i + 1, "_seq": seq}, label + ":preserve")
+                            self._oblige_inv(spec, s3, {"_i": i + 1, "_seq": seq, "_pre": pre}, label + ":preserve")
                             self.sink(s3)
                         elif out2[0] == "break":
                             yield s3, NORMAL
@@ -850,6 +1047,8 @@ class Engine:
         name = node.id
         fr = st.frame
         if name in fr.vars:
+            if fr.vars[name] is POISON:
+                raise Unsupported(f"read of {name}, whose value could not be merged at a join")
             yield st, fr.vars[name]
             return
         f = fr
@@ -963,6 +1162,21 @@ class Engine:
 
     def ex_Starred(self, node, st):
         raise Unsupported("starred expression outside call/tuple")
+
+    def ex_Yield(self, node, st):
+        hook = self.yield_hooks.get(st.frame.fname)
+        if hook is None:
+            raise Unsupported("yield without a registered yield hook")
+        if node.value is None:
+            hook(self, st, None)
+            yield st, None
+            return
+        for s, v in self.ev(node.value, st):
+            if isinstance(v, ExcVal):
+                yield s, v
+            else:
+                hook(self, s, v)
+                yield s, None
 
     def ex_Lambda(self, node, st):
         yield st, Closure(node, st.frame, st.frame.fname + ".<lambda>")
@@ -1308,6 +1522,17 @@ class Engine:
         if inspect.isclass(f):
             yield from self.B.construct(self, st, f, list(args), kwargs, node)
             return
+        if isinstance(f, types.BuiltinMethodType) and not isinstance(getattr(f, "__self__", None), types.ModuleType):
+            if f.__name__ in _PURE_NATIVE and all(not isinstance(a, (SV, Loc)) for a in list(args) + list(kwargs.values())):
+                try:
+                    yield st, f(*args, **kwargs)
+                except Exception as e:  # noqa
+                    yield st, ExcVal(type(e), (), self.where(st, node) if node else "")
+                return
+        w = self.B.lru_unwrap(f)
+        if isinstance(w, types.FunctionType) and type(f).__name__ == "_lru_cache_wrapper":
+            yield from self.call(st, w, args, kwargs, node)
+            return
         raise Unsupported(f"call of {f!r} at {self.where(st, node) if node else '?'}")
 
     def bind_params(self, st, argspec, defaults_vals, kwdefaults_vals, args, kwargs, fname):
@@ -1348,13 +1573,13 @@ class Engine:
         if fn in self.noinline or qn in self.noinline:
             raise Unsupported(f"call to {qn} has no contract and may not be inlined")
         mod = getattr(fn, "__module__", "") or ""
-        if not mod.startswith("unified_planning") and not mod.startswith("verif_"):
+        if not mod.startswith("unified_planning") and not mod.startswith("verif_") and not mod.startswith("contracts.harness"):
             raise Unsupported(f"call to external function {qn} without contract")
         if st.depth >= self.MAX_DEPTH:
             raise Unsupported(f"inline depth exceeded at {qn}")
         node = self.get_ast(fn)
-        if inspect.isgeneratorfunction(fn):
-            raise Unsupported(f"generator function {qn} (give a contract)")
+        if inspect.isgeneratorfunction(fn) and qn not in self.yield_hooks:
+            raise Unsupported(f"generator function {qn} (give a contract or a yield hook)")
         self.inlined.add(qn)
         defaults = list(fn.__defaults__ or ())
         kwd = dict(fn.__kwdefaults__ or {})
@@ -1440,6 +1665,20 @@ class Engine:
                 yield s, ("return", v)
 
 
+_PURE_NATIVE = {"get", "keys", "values", "items", "startswith", "endswith", "lower", "upper", "split",
+                "join", "format", "strip", "index", "count", "copy", "union", "intersection", "issubset",
+                "issuperset", "difference", "isdisjoint", "replace", "isdigit", "__contains__", "find",
+                "lstrip", "rstrip", "isalpha", "isalnum", "title", "capitalize"}
+
+
+class Poison:
+    def __repr__(self):
+        return "POISON"
+
+
+POISON = Poison()
+
+
 class _Cut:
     def __repr__(self):
         return "CUT"
@@ -1455,6 +1694,15 @@ class StarSeq:
 
     def __init__(self, seq):
         self.seq = seq
+
+
+def _mergeable_body(stmts):
+    """cheap syntactic filter: no loops / try / with inside a branch we try to merge"""
+    for st in stmts:
+        for n in ast.walk(st):
+            if isinstance(n, (ast.For, ast.While, ast.Try, ast.With, ast.FunctionDef, ast.Lambda)):
+                return False
+    return True
 
 
 def _qn(fn):
